@@ -50,7 +50,7 @@ def pipe_violations(w):
                 corr.append(f"step {idx} node {node}: pipeline result differs: code {want_res} / model {res}")
     return out, corr
 
-def _attr_history_run(pid, tier, seed, kinds, count_q, count_t, pred, rule, cfg_gen=None, max_len=(6, 9), nmax=(6, 7), final_ops=(), pipe=False):
+def _attr_history_run(pid, tier, seed, kinds, count_q, count_t, pred, rule, cfg_gen=None, max_len=(6, 9), nmax=(6, 7), final_ops=(), pipe=False, sym=False):
     rng = random.Random(seed)
     count = _sizes(tier, count_q, count_t)
     cases = []
@@ -59,7 +59,7 @@ def _attr_history_run(pid, tier, seed, kinds, count_q, count_t, pred, rule, cfg_
         n = len(rules.splitlines())
         cfg = cfg_gen(rng) if cfg_gen else {}
         h = H.gen_history(rng, n, max_len=_sizes(tier, *max_len), kinds=kinds)
-        cases.append({"rules": rules, "config": cfg, "history": h, "attr": True, "pipe": pipe})
+        cases.append({"rules": rules, "config": cfg, "history": h, "attr": True, "pipe": pipe, "sym": sym})
     corpus = os.path.join(VERIF, "corpus", pid + ".jsonl")
     pre = []
     if os.path.exists(corpus):
@@ -83,6 +83,9 @@ def _attr_history_run(pid, tier, seed, kinds, count_q, count_t, pred, rule, cfg_
         diffs = corr_diffs(w)
         pv, pcorr = pipe_violations(w) if pipe else ([], [])
         msgs = msgs + pv
+        stats["symbolic_test_calls_checked"] = stats.get("symbolic_test_calls_checked", 0) + w.get("sym_calls", 0)
+        for idx_, text in w.get("sym_results", [])[:1]:
+            msgs = msgs + [{"sig": "symbolic-test-contract", "what": f"step {idx_}: {text}"}]
         stats["pipeline_runs"] = stats.get("pipeline_runs", 0) + sum(1 for x in w.get("pipe_results", []) if x[2] == "pipeline")
         stats["solver_calls_checked"] = stats.get("solver_calls_checked", 0) + sum(1 for x in w.get("pipe_results", []) if x[2] == "call")
         for msg in msgs:
@@ -184,7 +187,7 @@ def run_C12(tier, seed):
     rng = random.Random(seed)
     res = _attr_history_run("C12", tier, seed, tuple(k if k != "seedsfb" else "seeds" for k in kinds), 300, 5000, pred,
         "random histories requesting attractor sets before/after seeds and candidates, after reclamation and pickling, on expanded, unexpanded and skip nodes; a third of the cases run with attractor_candidates_limit=1 so that seeds(symbolic_fallback=True) takes the fully symbolic fallback; every cached set list must be, in seed order, the complete attractors of the seeds (Checks.check_sets) and every seed list one-to-one with the brute-force attractors of the node, so fallback and default method agree through the common oracle; non-trivial = at least one cached item checked",
-        cfg_gen=cfg_gen_c12)
+        cfg_gen=cfg_gen_c12, sym=True)
     return res
 
 def _maa_list(w):
